@@ -76,7 +76,11 @@ def gen_index(i: int, seed: int, tier: str) -> dict[str, Any]:
                      "lat": rng.choice([0.005, 0.02, 0.3, 1.5, 2.5]), "free_level": rng.choice([0, 3, 15]),
                      "key_level": rng.choice([0, 1, 2, 15])})
     return {"seed": seed, "tier": "S", "config": {"proc": proc, "batch": 1, "foreign_serial_answer": rng.random() < 0.5,
-                                                   "target_serial": rng.choice([1, 2, 3, 9])}, "devices": devs, "ops": []}
+                                                   "target_serial": rng.choice([1, 2, 3, 9]),
+                                                   # delay of the L_Data.con of every frame sent: a device's answer may
+                                                   # overtake the confirmation of the request it answers (UDP tunnel)
+                                                   "con_d": rng.choice([0.003, 0.003, 0.003, 0.06, 0.4, 1.2])},
+            "devices": devs, "ops": []}
 
 
 def gen(seed, tier):
@@ -93,7 +97,7 @@ def run(plan: dict[str, Any]) -> dict[str, Any]:
     proc = cfg["proc"]
     R = Run(plan, max_time=5000.0)
     loop = R.loop
-    xknx, stub, q = make_xknx(R)
+    xknx, stub, q = make_xknx(R, default={"lat": 0.002, "out": "ok", "con": "after", "con_d": cfg.get("con_d", 0.003)})
     xknx.current_address = IndividualAddress(OWN)
     bus = SimBus(R, stub)
     devs = []
